@@ -11,6 +11,8 @@ package c19
 
 import (
 	"context"
+	"crypto/sha256"
+	"encoding/hex"
 	"encoding/json"
 	"errors"
 	"fmt"
@@ -134,7 +136,7 @@ func gen(r *rand.Rand) WL {
 		w.Fault.Kind = "cursorerr" // a cursor that delivers part of its rows and then reports an error
 		w.Fault.J = r.Uint32() % 7
 	default:
-		w.Fault.Kind = "cancel"
+		w.Fault.Kind = []string{"cancel", "cancel_fs", "cancel_fs"}[r.IntN(3)]
 	}
 	return w
 }
@@ -261,6 +263,20 @@ func (v *checkpointView) snapshotGraphs() []string {
 
 // imageInvariant is I1: a manifest on disk means a complete, loadable dump of the source.
 func (r *runner) imageInvariant(src stor.DBSpec, when string) string {
+	// I2: whatever interrupted the dump, the fragments its checkpoint lists as committed are on disk with
+	// the recorded hash (a checkpoint that names a missing or different file can never be resumed)
+	if ck, ok := r.readCheckpoint(); ok {
+		for _, f := range ck.committed() {
+			b, err := os.ReadFile(filepath.Join(r.out, filepath.FromSlash(f.Path)))
+			if err != nil {
+				return fmt.Sprintf("%s: the checkpoint lists committed fragment %s, which is not on disk (%v)", when, f.Path, err)
+			}
+			if sum := sha256.Sum256(b); f.SHA256 != "" && hex.EncodeToString(sum[:]) != f.SHA256 {
+				return fmt.Sprintf("%s: committed fragment %s does not have the hash its checkpoint records", when, f.Path)
+			}
+		}
+		r.counters["checkpoint_consistent_after_interruption"]++
+	}
 	if !exists(filepath.Join(r.out, "manifest.json")) {
 		return ""
 	}
@@ -712,6 +728,17 @@ func (r *runner) errorRun() (string, string) {
 			return rows, nil
 		}
 		tag = fmt.Sprintf("cursor #%d delivers half of its rows, then an error", 1+k%7)
+	case "cancel_fs":
+		// the cancellation arrives between two file-system operations of the dump (inside a fragment or
+		// checkpoint commit), not at a database call
+		k := 1 + int(f.K)%len(r.refLog)
+		plan.NotifyAt = k
+		plan.Notify = func() {
+			r.counters["cancellations_injected_at_fs_op"]++
+			r.cancel()
+		}
+		op := r.refLog[k-1]
+		tag = fmt.Sprintf("context cancelled right before op %d (%s %s)", k, op.Kind, op.Path)
 	case "cancel":
 		k := 1 + int(f.K)%max(1, r.refCalls)
 		src.Hook = func(_ context.Context, site string) error {
